@@ -1174,9 +1174,18 @@ func c16Pipestances(cp *c16Campaign) {
 				cfg.PFileTypes = 15
 				cfg.MaxTypeDepth = 3
 				cfg.MultiFile = i%4 != 0
-				cfg.TopMap = 25
+				cfg.PTopMap = 25
 				cfg.SrcFor = vrun.ProbeSrc(c.BuildDir)
 				p := pgen.Generate(seed, cfg)
+				emptyColls := false
+				if i%5 == 3 {
+					// skeletons whose stages consume merged map-call outputs and
+					// projections; every second one with all run-time collections empty
+					p = pgen.Template([]int{7, 4, 0, 6}[(i/5)%4], seed, cfg)
+					emptyColls = (i/5)%2 == 0
+					// definitions apart from the call, as mrp is normally given them
+					p.SplitIntoFiles("defs.mro")
+				}
 				// three in four programs keep every callable in include files
 				// (the layout mrp is normally given: definitions apart from the call)
 				for k := int64(1); cfg.MultiFile && p.NFiles == 0 && k < 50; k++ {
@@ -1195,6 +1204,9 @@ func c16Pipestances(cp *c16Campaign) {
 				vc, err := vrun.NewCase(c.BuildDir, dir, p, func(s *pgen.Spec) {
 					s.KeyPool = cfg.KeyPool
 					s.Seed = seed
+					if emptyColls {
+						s.LenChoices = []int{0}
+					}
 				})
 				if err != nil {
 					c.Inconclusive("harness: cannot lay out pipestance case")
